@@ -478,6 +478,7 @@ TrConstEq == IsOp("const_eq") /\ KeepAll /\ E.doc = X!DocOf(E.name) /\ TextIs(E.
 TrRenderConst == IsOp("render_const") /\ KeepAll /\ Has(E.res, "v") /\
       E.res.v = X!Render(X!ParseFormat(X!DocOf(E.name)).items, e.ts, e.v, DV(E.off))
 (* parse with a format: total; and the rendering of a UTC epoch parses back to it *)
+FmtOff == IF Has(E, "off") THEN DV(E.off) ELSE B!Zero
 TrFmtParse == IsOp("fmt_parse") /\ KeepAll /\
       LET ok == IsEp(E.res)
           pf == X!ParseFormat(E.fmt) IN
@@ -485,7 +486,9 @@ TrFmtParse == IsOp("fmt_parse") /\ KeepAll /\
         /\ (pf.ok /\ e.ts = X!UTC /\ X!RoundTrippable(pf.items)
              /\ (X!HasTok(pf.items, X!tf) \/ X!Fields(X!UTC, e.v)[7] = 0)
              /\ X!Fields(X!UTC, e.v)[1] \in 1..9999
-             /\ E.s = X!Render(pf.items, X!UTC, e.v, B!Zero))
+             /\ X!Fields(X!UTC, M!DAdd(e.v, FmtOff))[1] \in 1..9999
+             /\ (FmtOff = B!Zero \/ X!HasTok(pf.items, X!tz))
+             /\ E.s = X!Render(pf.items, X!UTC, e.v, FmtOff))
             => (ok /\ EV(E.res) = e)
         \* a well-formed sentence of an all-numeric format with a field out of range is an error
         /\ (pf.ok /\ X!NumFormat(pf.items)) =>
